@@ -259,6 +259,10 @@ const (
 	ReplaceNote // ietf-json-patch: replace /note (fails to apply when the member is absent)
 	RemoveNote  // ietf-json-patch: remove /note (fails to apply when the member is absent)
 	AddMember   // ietf-json-patch: add a top-level member named IDs[0] (any JSON string: the pointer must be escaped) with value Mark
+	AddTags     // ietf-json-patch: add /tags, a list of the strings IDs
+	// MoveNoteIntoTags is the ietf-json-patch [{"op":"move","from":"/note","path":"/tags/1"}]: the note is removed and
+	// INSERTED before the second tag (RFC 6902, 4.1 and 4.4); it fails to apply without a note or without a first tag
+	MoveNoteIntoTags
 )
 
 // OddMemberNames are legal top-level member names of an opaque document that need escaping in a JSON pointer or a JSON string.
@@ -600,6 +604,12 @@ func ToPatch(d PatchDesc) (patch.Patch, error) {
 		vb, _ := json.Marshal(d.Mark)
 
 		return patch.NewJSONPatch(fmt.Sprintf(`[{"op":"add","path":%s,"value":%s}]`, pb, vb))
+	case AddTags:
+		vb, _ := json.Marshal(d.IDs)
+
+		return patch.NewJSONPatch(fmt.Sprintf(`[{"op":"add","path":"/tags","value":%s}]`, vb))
+	case MoveNoteIntoTags:
+		return patch.NewJSONPatch(`[{"op":"move","from":"/note","path":"/tags/1"}]`)
 	case AddNote:
 		return patch.NewJSONPatch(fmt.Sprintf(`[{"op":"add","path":"/note","value":%q}]`, d.Mark))
 	case FailTest:
